@@ -191,7 +191,6 @@ class ClosedConstraintComponent(ConstraintComponent):
 
         if executor.sparql_mode:
             select_vars_string = ""
-            filter_props_list = []
             bgp_list = []
             init_bindings = {}
             if len(self.ignored_props) > 0:
@@ -209,20 +208,18 @@ class ClosedConstraintComponent(ConstraintComponent):
             for i, f in enumerate(focus_value_nodes.keys()):
                 for j, v in enumerate(focus_value_nodes[f]):
                     select_vars_string += f"?p{i}_{j} ?o{i}_{j} "
-                    bgp_line = f"OPTIONAL {{ $v{i}_{j} ?p{i}_{j} ?o{i}_{j} . }}"
-                    bgp_list.append(bgp_line)
+                    # The filter on the ignored properties belongs to the value node's own OPTIONAL:
+                    # as a filter of the whole group it also removed the rows of the other value
+                    # nodes (and every row, when one value node has no triples at all).
                     if filter_template:
-                        filter_props_line = filter_template.replace("{P}", f"?p{i}_{j}")
-                        filter_props_list.append(filter_props_line)
+                        filter_props_line = "FILTER " + filter_template.replace("{P}", f"?p{i}_{j}")
+                    else:
+                        filter_props_line = ""
+                    bgp_line = f"OPTIONAL {{ $v{i}_{j} ?p{i}_{j} ?o{i}_{j} . {filter_props_line} }}"
+                    bgp_list.append(bgp_line)
                     init_bindings[f"v{i}_{j}"] = v
             bgp_string = "\n".join(bgp_list)
-            if len(filter_props_list) > 1:
-                filter_props_string = "FILTER (" + " && ".join(filter_props_list) + ")"
-            elif len(filter_props_list) == 1:
-                filter_props_string = "FILTER " + filter_props_list[0]
-            else:
-                filter_props_string = ""
-            closed_query = f"SELECT DISTINCT {select_vars_string} {{\n\t{bgp_string}\n\t{filter_props_string}\n}}"
+            closed_query = f"SELECT DISTINCT {select_vars_string} {{\n\t{bgp_string}\n}}"
             try:
                 results = target_graph.query(closed_query, initBindings=init_bindings)
             except Exception as e:
